@@ -240,6 +240,11 @@ def gen_radial(draw, tier="quick"):
     else:
         classes = None
     spec = draw(_specs(classes=classes))
+    if spec["dim"] == 3 and spec["cls"] in ("Gaussian", "Exponential", "Matern") and draw(st.booleans()):
+        # geographic model (internal dimension 3, two field coordinates): the same spectral functions as the plain 3-D model
+        spec["latlon"] = True
+        spec["geo_scale"] = draw(st.sampled_from([1.0, 6371.0, 57.29577951308232]))
+        spec["anis"], spec["angles"] = [1.0, 1.0], [0.0, 0.0, 0.0]
     rl = [0.0] + sorted(_kl_values(draw, 5, 1e-3, 1e2))
     u = sorted(
         draw(
